@@ -196,6 +196,33 @@ func (g *gl) builtin(name string, c *ast.CallExpr, bs *[]glBind) string {
 	return "sorryBuiltin"
 }
 
+// logging: fmt.Print*, slog.* as statements have no effect on the values; their arguments are still evaluated (a
+// slice expression among them can panic)
+func (g *gl) isLogging(c *ast.CallExpr) bool {
+	name, _ := g.calleeName(c)
+	return strings.HasPrefix(name, "fmt.Print") || strings.HasPrefix(name, "slog.") || strings.HasPrefix(name, "log.Print")
+}
+
+func (g *gl) evalArgsOnly(c *ast.CallExpr, bs *[]glBind) {
+	for _, a := range c.Args {
+		if inner, ok := ast.Unparen(a).(*ast.CallExpr); ok {
+			name, _ := g.calleeName(inner)
+			if name == "fmt.Sprintf" || name == "fmt.Errorf" || strings.HasPrefix(name, "slog.") {
+				g.evalArgsOnly(inner, bs)
+				continue
+			}
+		}
+		if tv, ok := g.info().Types[a]; ok && tv.Value != nil {
+			continue
+		}
+		if g.leanType(g.typeOf(a)) == "" {
+			g.bad(a.Pos(), "logged value of type %s", g.typeOf(a))
+			continue
+		}
+		g.expr(a, bs)
+	}
+}
+
 // glUpdate: a call statement that updates a variable or a field path: returns the path expression that is updated and
 // the Lean term of its new value (binds in bs); ok=false when the call is not of that kind
 func (g *gl) callUpdate(c *ast.CallExpr, bs *[]glBind) (target ast.Expr, newVal string, rest string, ok bool) {
@@ -269,7 +296,16 @@ func (g *gl) setPath(path ast.Expr, val string) (*types.Var, string) {
 			if len(nb) > 0 {
 				g.bad(x.Pos(), "assignment through a computed path")
 			}
-			return g.setPath(x.X, fmt.Sprintf("{ %s with %s := %s }", base, glField(x.Sel.Name), val))
+			// a promoted field is set through the embedded structs on the way
+			names := strings.Split(strings.TrimPrefix(g.fieldPath(sel), "."), ".")
+			for i := len(names) - 1; i >= 0; i-- {
+				prefix := base
+				for _, n := range names[:i] {
+					prefix += "." + n
+				}
+				val = fmt.Sprintf("{ %s with %s := %s }", prefix, names[i], val)
+			}
+			return g.setPath(x.X, val)
 		}
 	}
 	g.bad(path.Pos(), "assignment target %T", path)
